@@ -176,6 +176,20 @@ class Pseudo2NetCDF:
             create_variable_kwds['fill_value'] = pvar.fill_value
         elif hasattr(pvar, '_FillValue'):
             create_variable_kwds['fill_value'] = pvar._FillValue
+        elif (
+            isinstance(pvar, NetCDFVariable) and
+            not isinstance(nfile, NetCDFFile) and np.ma.is_masked(pvar[...])
+        ):
+            # masked without a missing code of its own (netCDF default fill
+            # values, valid_range): the copy in memory stays masked
+            from netCDF4 import default_fillvals
+            try:
+                # (a masked scalar reads as numpy's float64 masked constant)
+                vdt = np.dtype('S1' if typecode == 'c' else typecode)
+            except TypeError:
+                vdt = np.ma.getdata(pvar[...]).dtype
+            create_variable_kwds['fill_value'] = default_fillvals.get(
+                vdt.str[1:], np.ma.default_fill_value(vdt))
 
         nvar = nfile.createVariable(
             k, typecode, pvar.dimensions, **create_variable_kwds)
@@ -211,8 +225,16 @@ class Pseudo2NetCDF:
             # netCDF4 stores it for the masked cells
             nvar[:] = pvar[...]
         elif isinstance(pvar[...], MaskedArray):
-            nvar[:] = pvar[...].filled(getattr(nvar, 'fill_value', getattr(
-                nvar, '_FillValue', getattr(pvar, 'missing_value', -9999))))
+            fill = getattr(nvar, 'fill_value', getattr(
+                nvar, '_FillValue', getattr(pvar, 'missing_value', None)))
+            if fill is None and isinstance(nvar, NetCDFVariable):
+                # no missing code anywhere: netCDF4 stores its default fill
+                # value for the masked cells (they read back masked)
+                nvar[:] = pvar[...]
+            elif fill is None:
+                nvar[:] = pvar[...].filled()
+            else:
+                nvar[:] = pvar[...].filled(fill)
         else:
             nvar[:] = pvar[...]
 
